@@ -481,8 +481,11 @@ def run(ctx: core.Ctx) -> core.Report:
         nstates += len(sts)
         sample_states.append({"version": v, "state_history": sts[-1]})
         for h in sts:
-            for i in range(0, len(lines), 400):
-                jobs.append((v, h, lines[i : i + 400]))
+            # restored registries differ from wire-built ones in their nodes and children, not in how internal messages are
+            # parsed: quick delivers the presentation / set / req part of the alphabet (and a sample of the rest) there
+            ls = lines if not (ctx.quick and h and h[0] == ["restore"]) else [l for k, l in enumerate(lines) if l.split(";")[2:3] in (["0"], ["1"], ["2"]) or len(l.split(";")) < 6 or k % 11 == 0]
+            for i in range(0, len(ls), 400):
+                jobs.append((v, h, ls[i : i + 400]))
     res = core.pmap(job, jobs, ctx.workers, chunksize=1)
     L = 4 if ctx.quick else 5
     streams = [b"".join(t) for n in range(L + 1) for t in itertools.product(ALPHA, repeat=n)]
